@@ -23,7 +23,7 @@ def convert(input_image_stream, output_image_stream):
     sz = os.path.getsize(f.name)
     side = int(math.sqrt(sz * 2))
     out.write(strtoio("P5\n{} {}\n255\n".format(side, side)))
-    s = ["a"] * (sz * 2)
+    s = ["a"] * (side * side)
     for y in range(side):
         for x in range(side // 2):
             v = ord(iotostr(f.read(1)))
